@@ -286,6 +286,64 @@ mod kani_hooks_c18 {
             }
         };
     }
+    // ---- text route with a LONG symbolic string (<= 40 bytes of ASCII, 2-byte and 3-byte UTF-8 characters at arbitrary offsets): the
+    // number parser is "any outcome" again; what is decided is that no input text makes the route panic (e.g. slicing the text at
+    // a fixed byte offset for an error message) or breaks the accept/reject clauses, whatever its length and character widths.
+    macro_rules! mk18long {
+        ($ty:ty, $lo:expr, $hi:expr, $name:ident) => {
+            #[kani::proof]
+            #[kani::unwind(42)]
+            #[kani::stub(<f64 as std::str::FromStr>::from_str, stub_f64_from_str_rec)]
+            #[kani::stub(std::fmt::write, stub_fmt_write)]
+            fn $name() {
+                let bytes: [u8; 40] = kani::any();
+                let len: usize = kani::any();
+                kani::assume(len <= 40);
+                // well-formed UTF-8 (subset): ASCII, C2..DF + 1 continuation, E1..EC + 2 continuations; sequences complete within len
+                let mut k = 0;
+                let mut need: u8 = 0;
+                while k < 40 {
+                    if k < len {
+                        let b = bytes[k];
+                        if need > 0 {
+                            kani::assume(b >= 0x80 && b <= 0xbf);
+                            need -= 1;
+                        } else if b >= 0xc2 && b <= 0xdf {
+                            need = 1;
+                        } else if b >= 0xe1 && b <= 0xec {
+                            need = 2;
+                        } else {
+                            kani::assume(b < 0x80);
+                        }
+                    }
+                    k += 1;
+                }
+                kani::assume(need == 0);
+                let s = unsafe { std::str::from_utf8_unchecked(&bytes[..len]) };
+                let r = <$ty as std::str::FromStr>::from_str(s);
+                let parsed = unsafe { LAST_PARSED };
+                match r {
+                    Ok(v) => {
+                        let x = parsed.unwrap();
+                        assert!(x >= $lo && x <= $hi, "text accepted out of range");
+                        assert!(f64::from(v).to_bits() == x.to_bits(), "text read back differs");
+                    }
+                    Err(_) => {
+                        if let Some(x) = parsed {
+                            assert!(!(x >= $lo && x <= $hi), "text rejected in-range value");
+                        }
+                    }
+                }
+                kani::cover!(r.is_ok(), "accept reachable");
+                kani::cover!(len == 40 && bytes[24] >= 0x80, "long non-ASCII text reachable");
+            }
+        };
+    }
+    mk18long!(Gmt, -12.0, 12.0, c18_tl_gmt);
+    mk18long!(Latitude, -90.0, 90.0, c18_tl_latitude);
+    mk18long!(Longitude, -180.0, 180.0, c18_tl_longitude);
+    mk18long!(Elevation, -420.0, 8848.0, c18_tl_elevation);
+
     mk18sym!(Gmt, -12.0, 12.0, c18_ts_gmt);
     mk18sym!(Latitude, -90.0, 90.0, c18_ts_latitude);
     mk18sym!(Longitude, -180.0, 180.0, c18_ts_longitude);
